@@ -222,7 +222,10 @@ Definition was_aborted (cid : nat) (H : heap) : bool :=
 Definition sub_drop (q : subreq) (H : heap) : heap :=
   match q with SQ _ dead _ _ ch => if dead then H else chan_drop_rx ch H | SDone _ => H | SL _ _ _ ch => chan_drop_rx ch H | SJ _ => H end.
 
-Definition DF := 64.
+(* the fuel a drop starts with: dropping follows hosting futures into the commands they host, whose ids are larger
+   than the command of the hosting task; 2 steps per command are enough for the whole table
+   (DropFuel.drop_cmd_fuel_suffices, under the order invariant); no constant bounds the nesting depth *)
+Definition dfuel (H : heap) : nat := S (S (2 * length (cmds H))).
 Definition kill_flag u (H : heap) := utf u (fun tf => mkTF (tf_fin tf) (tf_abort tf) false (tf_joinw tf)) H.
 Fixpoint drop_fs (fuel : nat) (fs : fstate) (H : heap) : heap :=
   match fuel with 0 => H | S f =>
@@ -409,7 +412,7 @@ Definition poll_body (F : rtfuns) (c : nat) (w : waker) (fs : fstate) (H : heap)
     | Some (r, H1) =>
       match r with
       | PNPending => Some (Pend fs, H1)
-      | PNDone => go (LRun k) (note B_HostDone (drop_cmd DF cid H1))
+      | PNDone => go (LRun k) (note B_HostDone (drop_cmd (dfuel H1) cid H1))
       | PNEffect e => rpoll F c w fs (push_eff c (map_eff meff e) H1)
       | PNEvent e => rpoll F c w fs (push_ev c (map_ev mev e) H1)
       end
@@ -442,7 +445,7 @@ Definition settle_body (F : rtfuns) (cid : nat) (H : heap) : option heap :=
     let c := gcmd cid H in
     let H1 := ucmd cid slab_clear H in
     Some (note B_AbortClear
-      (fold_left (fun Hh e => match e with Occ t => kill_flag (t_uid t) (drop_fs DF (t_fs t) Hh) | Vac _ => Hh end) (c_ent c) H1))
+      (fold_left (fun Hh e => match e with Occ t => kill_flag (t_uid t) (drop_fs (dfuel Hh) (t_fs t) Hh) | Vac _ => Hh end) (c_ent c) H1))
   else rloop F cid H.
 (* loop { spawn_new_tasks(); if ready_queue.is_empty() { break }; drain the ready queue } *)
 Definition loop_body (F : rtfuns) (cid : nat) (H : heap) : option heap :=
@@ -458,7 +461,7 @@ Definition finish_task (cid s : nat) (t : trec) (H2 : heap) : heap :=
   let ws := tf_joinw (gtf (t_uid t) H4) in
   let H5 := utf (t_uid t) (fun tf => mkTF true (tf_abort tf) (tf_alive tf) []) H4 in
   let H6 := fold_left (fun Hh wk => wake (wfuel wk) wk Hh) ws H5 in
-  kill_flag (t_uid t) (drop_fs DF (t_fs t) H6).
+  kill_flag (t_uid t) (drop_fs (dfuel H6) (t_fs t) H6).
 Definition drain_body (F : rtfuns) (cid : nat) (H : heap) : option heap :=
   match c_ready (gcmd cid H) with
   | [] => Some H
